@@ -165,6 +165,38 @@ def run_product(case):
                 if bad:
                     viols.append((bad[0], bad[1] + " ; sequence=%s" % json.dumps(e)[:300]))
                     break
+        # --- the combinatoric sampler enforces the Nest structure with other code (its own conformance checks): a few of its
+        # sequences go through the same structural check
+        if not viols:
+            try:
+                w.draw_cap = w.rng.draws + 60000
+                with common.time_limit(6):
+                    rr, xr = common.synth(w, bn, "RandomGen", 6)
+            except (common.InnerTimeout, W.HarnessCap):
+                rr, xr = None, None
+            for e in (rr or []):
+                bad = None
+                if any(len(v) != Tn for v in e.values()):
+                    bad = ("C25/sequence-length/random", "%s" % {k: len(v) for k, v in e.items()})
+                reps = {}
+                for k in o_crossed:
+                    col = e[k]
+                    for g in range(To):
+                        grp = col[g * Ti:(g + 1) * Ti]
+                        if bad is None and len(set(grp)) != 1:
+                            bad = ("C25/outer-level-not-constant-in-group/random", "factor %s group %d: %r" % (k, g, grp))
+                    reps[k] = [col[g * Ti] for g in range(To)]
+                if bad is None and key(reps) not in Vo:
+                    bad = ("C25/group-representatives-not-a-valid-outer-sequence/random", "representatives %r" % reps)
+                if bad is None:
+                    for g in range(To):
+                        grp = {k: e[k][g * Ti:(g + 1) * Ti] for k in i_names}
+                        if key(grp) not in Vi:
+                            bad = ("C25/group-not-a-valid-inner-sequence/random", "group %d: %r" % (g, grp))
+                            break
+                if bad:
+                    viols.append((bad[0], "RandomGen: " + bad[1] + " ; sequence=%s" % json.dumps(e)[:300]))
+                    break
         # --- completeness by the product construction (no whole-sequence constraints, disjoint designs)
         if not viols and not nest["constraints"] and set(o_names) == set(o_crossed) and not (set(o_names) & set(i_names)):
             N = Counter(map(key, rn))
